@@ -992,10 +992,13 @@ class Flatten(OpDef):
                     if norm_dim(a, r) <= norm_dim(b, r):
                         out.append({"a": L(s), "start": a, "end": b})
         out.append({"a": [2, 3, 2], "start": None, "end": None})
+        # a 0-d tensor is treated as having one dimension: the result has shape (1,) (torch.flatten / ndarray.flatten)
+        for a, b in ((None, None), (0, 0), (-1, -1), (0, -1), (-1, 0)):
+            out.append({"a": [], "start": a, "end": b})
         return out
 
     def illegal_configs(self, tier):
-        return [{"a": [2, 3, 2], "start": 2, "end": 0}, {"a": [2, 3, 2], "start": -1, "end": 1},
+        return [{"a": [], "start": 1, "end": 1}, {"a": [], "start": 0, "end": -2}, {"a": [2, 3, 2], "start": 2, "end": 0}, {"a": [2, 3, 2], "start": -1, "end": 1},
                 {"a": [2, 3], "start": 0, "end": 2}, {"a": [2, 3], "start": -3, "end": 1}]
 
     def inputs(self, args):
@@ -1009,6 +1012,8 @@ class Flatten(OpDef):
     def reference(self, args, xs, extra):
         x = xs[0]
         r = x.ndim
+        if r == 0:
+            return by_tags(x, tags(x.shape).reshape((1,)))
         a = 0 if args["start"] is None else norm_dim(args["start"], r)
         b = r - 1 if args["end"] is None else norm_dim(args["end"], r)
         if a > b:
